@@ -1,4 +1,4 @@
-\* behaviour generation (simulation, depth 17): 4 batches x <= 3 ops, 2 names, 4 label sets (3 shapes), 2 groups, 2 hooks, values {0.5, 1.0, 1.5}, 14 invalid ops, <= 1 rejected batch; AvoidOpen is set per run (full / clean family)
+\* behaviour generation (simulation, depth 17): 4 batches x <= 3 ops, 2 names, 4 label sets (3 shapes), 2 groups, 2 hooks, values {0.5, 1.0, 1.5}, 14 invalid ops + 3 truncations of the last operation, <= 1 rejected batch; AvoidOpen is set per run (full / clean family)
 SPECIFICATION SimSpec
 CONSTANTS
   Names = {"m1", "m2"}
